@@ -471,6 +471,7 @@ class Log():
         # If the log configuration contains variables that we added without
         # type (i.e we want the stored as type for fetching as well) then
         # resolve this now and add them to the block again.
+        resolved = []
         for name in logconf.default_fetch_as:
             var = self.toc.get_element_by_complete_name(name)
             if not var:
@@ -478,9 +479,12 @@ class Log():
                     '%s not in TOC, this block cannot be used!', name)
                 logconf.valid = False
                 raise KeyError('Variable {} not in TOC'.format(name))
-            # Now that we know what type this variable has, add it to the log
-            # config again with the correct type
-            logconf.add_variable(name, var.ctype)
+            resolved.append((name, var.ctype))
+        # Now that we know what type these variables have, add them to the log
+        # config again with the correct type (all or none, a configuration
+        # that is refused here can be added again later)
+        for name, ctype in resolved:
+            logconf.add_variable(name, ctype)
         # They are resolved now, do not add them again if this configuration is
         # added again (after a reconnect)
         logconf.default_fetch_as = []
